@@ -33,7 +33,7 @@ func (nopListener) SavedMetadata(context.Context, string, string, string, metada
 func (nopListener) RevertedTransaction(context.Context, string, ledger.Transaction, ledger.Transaction) {
 }
 func (nopListener) DeletedMetadata(context.Context, string, string, any, string) {}
-func (nopListener) InsertedSchema(context.Context, string, ledger.Schema)       {}
+func (nopListener) InsertedSchema(context.Context, string, ledger.Schema)        {}
 
 // attachMode builds the Go stack over a database exactly like world.Attach does, with
 // the system controller's schema enforcement mode set (world.Attach uses the default,
@@ -182,4 +182,23 @@ func (c *counter) snapshot() map[string]int64 {
 		out[k] = v
 	}
 	return out
+}
+
+// phasedFor runs the jobs grouped by size(i) in increasing order with a barrier between
+// groups (so that the first counterexample recorded for a signature is a shortest one).
+// idx must already be sorted by size. Returns false when it stopped early.
+func phasedFor(r *ev.Run, n int, size func(i int) int, fn func(i int)) bool {
+	lo := 0
+	for lo < n {
+		hi := lo
+		for hi < n && size(hi) == size(lo) {
+			hi++
+		}
+		base := lo
+		if !parallelFor(r, hi-lo, func(i int) { fn(base + i) }) {
+			return false
+		}
+		lo = hi
+	}
+	return true
 }
